@@ -107,6 +107,8 @@ def run(repo: Repo, rep: Report, tier: str) -> None:
     _c16.run(repo, Only(rep, {"R16.1"}), tier)
     from ..core import helper_contracts as _hc
     _hc.report(repo, rep, "R07.7", _hc.field_default_contract(repo), "mashumaro.core.meta.code.builder::CodeBuilder.get_field_default")
+    from ..core import helper_contracts as _hc2
+    _hc2.report(repo, rep, "R09.6", _hc2.dataclass_fields_contract(repo), "mashumaro.core.meta.code.builder::CodeBuilder.dataclass_fields")
 
 def _r07_4(repo: Repo, rep: Report, tier: str) -> None:
     fi = repo.func(M_BUILDER, "CodeBuilder._add_unpack_method_lines")
@@ -311,3 +313,6 @@ LEVEL_TEXT += _ADDENDUM
 _ADD2 = ' R07.7: contract of get_field_default (Field.default, else the factory -- called only on request --, else the class attribute; MISSING means no default).'
 EXPLANATION += _ADD2
 LEVEL_TEXT += _ADD2
+_ADD3 = " Borrowed: R09.6 (dataclass_fields: the nearest ancestor's Field wins; a bare re-annotation drops the inherited Field)."
+EXPLANATION += _ADD3
+LEVEL_TEXT += _ADD3
